@@ -153,11 +153,11 @@ def exhaustion_rule(ctx):
         fv = ctx.need("C16.E", path)
         if fv is None:
             continue
-        loop = next((n for n in fv.nodes if n.get("k") == "loop"), None)
+        iter_root, loop = iteration_node(fv)
         if loop is None:
             ctx.fail("C16.E", "%s:loop" % path, "main loop not found", fv.fn["sp"])
             continue
-        paths = sym_paths(fv, loop["body"])
+        paths = sym_paths(fv, iter_root)
         bad = [sp for sp in paths if not sp.conds or not minimiser.is_exhaust(sp.conds[0][0])]
         # no `seq.len() - 1` (underflows on an empty sequence) evaluated on any path
         under = []
